@@ -128,11 +128,13 @@ void adapter_exec(Ev *ev)
         if (n > 0) xfree(data); else xfree0(data);
     } else {
         fam = 3;
-        /* auxiliary block: designated region [0,R), two canary octets behind it */
-        aux = xblock((size_t)R + 2);
-        memset(aux, 0x5a, (size_t)R);
-        aux[R] = 0xc5; aux[R + 1] = 0xc5;
-        ByteBuffer b = BYTE_BUFFER_INIT(aux, (size_t)R + 2, (size_t)R, 0);
+        /* auxiliary block: designated region [O, O+R), canary octets in front of and behind it (R > 10: O = 2) */
+        long O = R > 10 ? 2 : 0;
+        R = R % 10;
+        aux = xblock((size_t)(O + R + 2));
+        memset(aux, 0xc5, (size_t)(O + R + 2));
+        memset(aux + O, 0x5a, (size_t)R);
+        ByteBuffer b = BYTE_BUFFER_INIT(aux, (size_t)(O + R + 2), (size_t)(O + R), (size_t)O);
         if (setjmp(bail) == 0) {
             if (ev_is(ev, "cbc")) rc = sts_cbc(&src, &snk);
             else if (ev_is(ev, "ncbc")) rc = sts_n_cbc(&src, &snk, (size_t)n);
@@ -148,7 +150,11 @@ void adapter_exec(Ev *ev)
             else { fprintf(stderr, "endp: unknown op %s\n", ev->name); exit(2); }
         }
         obs(ev, rc); obs(ev, s.pos);
-        obs(ev, (aux[R] != 0xc5 || aux[R + 1] != 0xc5) ? 1 : 0);
+        {
+            int touched_outside = aux[O + R] != 0xc5 || aux[O + R + 1] != 0xc5;
+            for (long i = 0; i < O; i++) if (aux[i] != 0xc5) touched_outside = 1;
+            obs(ev, touched_outside);
+        }
         for (long i = 0; i < k.n; i++) obs(ev, k.got[i]);
         xfree(aux);
     }
